@@ -308,7 +308,12 @@ bool AnalyserInternalEquation::variableOnLhsRhs(const AnalyserInternalVariablePt
         return (variable->mType != AnalyserInternalVariable::Type::STATE)
                && (astChild->variable()->name() == variable->mVariable->name());
     case AnalyserEquationAst::Type::DIFF:
-        return astChild->rightChild()->variable()->name() == variable->mVariable->name();
+        // Note: the derivative of an expression (rather than of a variable) is
+        //       not something from which a variable can be computed.
+
+        return (astChild->rightChild() != nullptr)
+               && (astChild->rightChild()->variable() != nullptr)
+               && (astChild->rightChild()->variable()->name() == variable->mVariable->name());
     default:
         return false;
     }
